@@ -108,3 +108,40 @@ def reconstructs(v, base):
 def search_atoms(pc, kind):
     """(truth, source, element, conditions) of the any / position / all atoms of a path condition"""
     return [(t, a[1], a[2], a[3]) for a, t in pc if a[0] == kind]
+
+def untake(t):
+    """Terms with `Option::take` / `mem::take` / `mem::replace(.., None)` read as the value they return: what the place held when it
+    was taken.  (The interpreter keeps the call term so that a rule can ask *whether* a place was emptied; a rule that asks what the
+    value is - is it Some, which variant is inside, where does it flow - looks through it.  The emptied place itself is in the heap.)"""
+    if isinstance(t, tuple):
+        if t and t[0] == 'call' and len(t) == 4 and t[1] == absx.Interp.TAKE and len(t[2]) == 1:
+            return untake(t[2][0])
+        return tuple(untake(x) for x in t)
+    return t
+
+def primitive_defaults(interp, cal, args, node, st):
+    """Interpreter summary (pass in `summaries=[..]`): `Default::default()` of the primitive types is a constant - false, 0, the
+    empty string, `None` for every Option - so the body of a derived `Default` impl evaluates to the field values it really yields."""
+    import re
+    if args or not cal.endswith(' as core::default::Default>::default'):
+        return None
+    ty = cal[1:-len(' as core::default::Default>::default')]
+    if ty == 'bool':
+        return [absx.Out('val', absx.FALSE, st)]
+    if re.match(r'^[iu](8|16|32|64|128|size)$', ty):
+        return [absx.Out('val', ('lit', 0), st)]
+    if ty.startswith('core::option::Option<'):
+        return [absx.Out('val', ('ctor', 'None', ()), st)]
+    if ty in ('alloc::string::String', '&str'):
+        return [absx.Out('val', ('lit', ''), st)]
+    return None
+
+def params_of_type(f, B, ty_pred):
+    """Names of the parameters of body B whose declared type satisfies ty_pred (anchoring a parameter by its type, not its name)."""
+    it = f.items.get(B.path) or {}
+    ins = it.get('inputs') or []
+    out = []
+    for b, d in B.defs.items():
+        if d['kind'] == 'param' and not d['proj'] and d['idx'] < len(ins) and ty_pred(hirq.strip_refs(ins[d['idx']] or '')) and d['name'] not in out:
+            out.append(d['name'])
+    return out
